@@ -115,26 +115,28 @@ end
 
 /-- `Mp4Atom.load` over the bytes of one container payload (or of the file):
 header, payload of `size - header_size` bytes, children of containers
-recursively, then the next sibling.  Strict: sizes must fit exactly. -/
-def decBoxes (ctx : SencCtx) : Nat → Bytes → Option (List Box)
+recursively, then the next sibling.  Strict: sizes must fit exactly.  `tail` =
+bytes of the file behind `bs` (for `size == 0` headers). -/
+def decBoxes (ctx : SencCtx) (tail : Nat) : Nat → Bytes → Option (List Box)
   | 0, bs => if bs.isEmpty then some [] else none
   | fuel+1, bs =>
     if bs.isEmpty then some [] else
-    match decHeader bs with
+    match decHeader tail bs with
     | none => none
     | some (h, afterHdr) =>
       if h.size < h.hdrSize ∨ bs.length < h.size then none else
       let payload := afterHdr.take (h.size - h.hdrSize)
       let rest := afterHdr.drop (h.size - h.hdrSize)
       let box : Option Box :=
-        if kindOf h.typ = .container then (decBoxes ctx fuel payload).map (Box.node h.typ h.large)
+        if kindOf h.typ = .container then
+          (decBoxes ctx (rest.length + tail) fuel payload).map (Box.node h.typ h.large)
         else (decPayload ctx (kindOf h.typ) payload).map (Box.leaf h.typ h.large)
-      match box, decBoxes ctx fuel rest with
+      match box, decBoxes ctx tail fuel rest with
       | some b, some tl => some (b :: tl)
       | _, _ => none
 
 /-- parse a whole input -/
-def decFile (ctx : SencCtx) (bs : Bytes) : Option (List Box) := decBoxes ctx bs.length bs
+def decFile (ctx : SencCtx) (bs : Bytes) : Option (List Box) := decBoxes ctx 0 bs.length bs
 
 mutual
 def BoxWf (ctx : SencCtx) : Box → Prop
@@ -150,17 +152,21 @@ end
 /-! ### payload-agnostic walker -/
 /-- every header's size fits in what is left, payloads of containers consist of
 boxes that fill them exactly -/
-def walkOk : Nat → Bytes → Bool
+def walkOkT (tail : Nat) : Nat → Bytes → Bool
   | 0, bs => bs.isEmpty
   | fuel+1, bs =>
     if bs.isEmpty then true else
-    match decHeader bs with
+    match decHeader tail bs with
     | none => false
     | some (h, afterHdr) =>
       if h.size < h.hdrSize ∨ bs.length < h.size then false else
       let payload := afterHdr.take (h.size - h.hdrSize)
       let rest := afterHdr.drop (h.size - h.hdrSize)
-      (if kindOf h.typ = .container then walkOk fuel payload else true) && walkOk fuel rest
+      (if kindOf h.typ = .container then walkOkT (rest.length + tail) fuel payload else true) &&
+        walkOkT tail fuel rest
+
+/-- the walker over a whole file -/
+def walkOk (fuel : Nat) (bs : Bytes) : Bool := walkOkT 0 fuel bs
 
 /-! ### trees with the stored `size` / `position` attributes -/
 structure Meta where
